@@ -1077,3 +1077,9 @@ v("d107-keyed-column-names-ignored", "C17", CD, "            blocks_out=self.val
 v("d108-keyless-group-by-unguarded", "C17", SM, "        if len(control_cols) > 0:  # no record keys: the whole table is one record\n", "        if True:\n")
 
 v("d109-relaxed-stacking-unguarded", "C17", PM, "            if (len(stacked_types) > 1) and (\n                not all([t.is_numeric() for t in stacked_types])\n            ):", "            if False:")
+
+v("d110-coalesce-array-operand", "C05", PB, "        if isinstance(b, numpy.ndarray):\n            b = self.pd.Series(b)\n", "")
+v("d110-coalesce-array-operand-c01", "C01", PB, "        if isinstance(a, numpy.ndarray):\n            a = self.pd.Series(a)\n", "")
+
+v("d111-fmax-bare-ufunc", "C05", PB, "            \"fmax\": lambda a, b: self._ignoring_missing(numpy.fmax, a, b),\n", "")
+v("d111-fmin-not-refilled", "C05", PB, "            res = res.fillna(self._coalesce(a, b))\n", "            pass\n")
